@@ -91,3 +91,33 @@ Proof.
   exact (conj g5_class (conj gu_class (conj msep_nonvacuous_sep (conj msep_nonvacuous_conn msep_nonvacuous_und)))).
 Qed.
 Print Assumptions msep_nonvacuous.
+
+(* ---- tie (T): the transition rules GENERATED from the source of m_separated (Gen/Gen_SepStep.v, regenerated from /repo on
+   every check) are the model's rules; see Tie/SepStep_C01.v *)
+From PG Require Import Gen.Gen_SepStep Tie.SepStep_C01.
+
+Theorem repo_sep_step_eq : forall g Z anZ s a, In a (gen_sep_step g Z anZ s) <-> In a (sep_step g Z anZ s).
+Proof. exact SepStep_C01.repo_sep_step_eq. Qed.
+Print Assumptions repo_sep_step_eq.
+
+Theorem repo_switch_sound : forall hd hb hu g Z anZ s a,
+  (hd = false -> D g = []) -> (hb = false -> B g = []) -> (hu = false -> U g = []) ->
+  (In a (gen_sep_step_sw hd hb hu g Z anZ s) <-> In a (sep_step g Z anZ s)).
+Proof. exact SepStep_C01.repo_switch_sound. Qed.
+Print Assumptions repo_switch_sound.
+
+Theorem repo_visited_discipline : gen_visited_ok = true.
+Proof. exact SepStep_C01.repo_visited_discipline. Qed.
+Print Assumptions repo_visited_discipline.
+
+Theorem repo_msep_model_eq : forall g X Y Z, incl X (V g) -> incl Z (V g) ->
+  repo_msep_model g X Y Z = msep_model g X Y Z.
+Proof. exact SepStep_C01.repo_msep_model_eq. Qed.
+Print Assumptions repo_msep_model_eq.
+
+Theorem repo_msep_model_correct : forall g X Y Z,
+  acyclicb g = true -> (U g = [] \/ ancestral_und g) ->
+  incl X (V g) -> incl Z (V g) -> disjoint X Y -> disjoint X Z ->
+  (repo_msep_model g X Y Z = Some true <-> msep g X Y Z).
+Proof. exact SepStep_C01.repo_msep_model_correct. Qed.
+Print Assumptions repo_msep_model_correct.
